@@ -27,6 +27,7 @@ type SwarmConfig struct {
 	MaxBlockTxs        int                `json:"max_block_txs"`
 	Replica            bool               `json:"replica"`
 	Shadow             bool               `json:"shadow"`
+	CoolDown  int  // last blocks of the run without faults, canary traffic only (C18 liveness evidence)
 	EdenCycle bool // governance cycles one pool's Eden rewards on/off/on (C13)
 	Reexec             bool               `json:"reexec"`         // re-execute the block log in a fresh OS process
 	ReexecDumpAt       int64              `json:"reexec_dump_at"` // height at which the reference DB is dumped for the resume variant
